@@ -54,7 +54,7 @@ func VerifH_C11_O1a_zng_bytes() {
 }
 
 // verif:desc C11-O1b compressed-frame header: for a frame with the compression bit set, any 1-byte length, any format byte and ANY uvarint-encoded uncompressed size (1..10 bytes, including values >= 2^63 that wrap negative), parser.read either returns an error or buffers whose lengths are within [0, maxSize]; no panic escapes.
-// verif:bounds code: any byte with bits 7..6 == 01; length byte < 0x80; format any byte; size: any uvarint of up to 10 bytes; up to 1 payload byte; maxSize 8, read size 8 (NewReaderWithOpts clamps the read size to the maximum)
+// verif:bounds code: any byte with bits 7..6 == 01; length byte < 0x80; format any byte; size: any uvarint of up to 10 bytes; up to 1 payload byte; maxSize = read size = 3 (quick) / 8 (thorough) (NewReaderWithOpts clamps the read size to the maximum)
 // verif:outside multi-byte frame length (covered up to the input bound by O1a)
 // verif:unwind 40
 func VerifH_C11_O1b_comp_header() {
@@ -67,7 +67,10 @@ func VerifH_C11_O1b_comp_header() {
 	data := []byte{code, lenb, verif.Byte("fmt")}
 	data = append(data, verif.Bytes("size", 10)...)
 	data = append(data, verif.Bytes("payload", 1)...)
-	const max = 8
+	max := 3
+	if verif.Thorough() {
+		max = 8
+	}
 	p := parser{
 		peeker:  peeker.NewReader(bytes.NewReader(data), max, max),
 		types:   NewDecoder(zed.NewContext()),
